@@ -3,7 +3,60 @@ import itertools
 import random
 import re
 import collections
+import os
+import shutil
+import subprocess
+import tempfile
 import gen, histgen, lib, simcheck
+
+
+def interactive_part(report, rng, tier):
+    """The real binary with -i: the prompt between cycles must not change where the run stops nor what
+    the final report says, whatever standard input holds (nothing, fewer lines than cycles, more)."""
+    cli = lib.build_cli("dev")
+    tmp = tempfile.mkdtemp(prefix="hclv-c06-")
+    n = 0
+    try:
+        yo = os.path.join(tmp, "m.yo")
+        with open(yo, "w") as fh:
+            fh.write(gen.yo_line(0, b"\x00") + "\n")
+        for i in range(10 if tier == "quick" else 120):
+            L = rng.randint(1, 7)
+            seq = [rng.choice([0, 1]) for _ in range(L)] + [rng.choice([0, 1, 2, 2, 3, 4, 5, 6, 7])]
+            t = rng.choice([1, 2, L, L + 1, L + 2, 12])
+            want_cycles, want_kind = histgen.stat_spec(seq, t)
+            hcl = os.path.join(tmp, "p%d.hcl" % i)
+            with open(hcl, "w") as fh:
+                fh.write(histgen.stat_program(seq))
+            flags = rng.choice([["-q"], [], ["-t"]])
+            base = subprocess.run([cli] + flags + [hcl, yo, str(t)], capture_output=True, timeout=60, stdin=subprocess.DEVNULL)
+            for k in sorted({0, 1, want_cycles // 2, want_cycles + 3}):
+                opt = rng.choice(["-i", "--interactive"])
+                r = subprocess.run([cli, opt] + flags + [hcl, yo, str(t)], capture_output=True, timeout=60, input=b"\n" * k)
+                n += 1
+                out = b"".join(l for l in r.stdout.splitlines(True) if l.strip() != b"(press enter to continue)")
+                prompts = r.stdout.count(b"(press enter to continue)")
+                rep = {"hcl": open(hcl).read(), "seq": seq, "timeout": t, "flags": flags + [opt], "stdin_lines": k,
+                       "expected_cycles": want_cycles, "expected_kind": want_kind,
+                       "exit": r.returncode, "exit_without_i": base.returncode,
+                       "stdout": r.stdout.decode("utf-8", "replace")[-1500:], "stdout_without_i": base.stdout.decode("utf-8", "replace")[-1500:],
+                       "stderr": r.stderr.decode("utf-8", "replace")[-500:]}
+                if r.returncode != base.returncode or out != base.stdout:
+                    report.violation("run-interactive-differs", "with %s and %d line(s) on standard input the run ends differently than without the prompt "
+                                     "(Stat sequence %s, timeout %d: %d cycles, %s expected)" % (opt, k, seq, t, want_cycles, want_kind), rep)
+                    break
+                if prompts > want_cycles:
+                    report.violation("run-interactive-differs", "%d prompts for a run of %d cycles" % (prompts, want_cycles), rep)
+                    break
+            m = re.search(rb"Cycles run: (\d+)", base.stdout)
+            m2 = re.search(rb"timed out after\s+(\d+) cycles", base.stdout)
+            got = int(m.group(1)) if m else int(m2.group(1)) if m2 else None
+            if got is not None and got != want_cycles:
+                report.violation("run-cycles", "the binary reports %d cycles, the property says %d (Stat sequence %s, timeout %d)" % (got, want_cycles, seq, t),
+                                 {"hcl": open(hcl).read(), "stdout": base.stdout.decode("utf-8", "replace")[-1500:]})
+    finally:
+        shutil.rmtree(tmp, ignore_errors=True)
+    return n
 
 
 def check(report, tier, seed):
@@ -79,11 +132,12 @@ def check(report, tier, seed):
             m = re.search(r"Error code: (.*)", text)
             if not m or not (m.group(1).startswith("%d " % code) or (code > 5 and m.group(1) == "<unknown>")):
                 report.violation("run-report-code", "error report does not name status %d: %r" % (code, m.group(1) if m else None), rep)
-    report.coverage["evaluations"] = len(cases)
+    n_inter = interactive_part(report, rng, tier)
+    report.coverage["evaluations"] = len(cases) + n_inter
     report.coverage["distinct_nontrivial"] = len(set((tuple(s), t) for s, t in meta.values()))
     report.coverage["exhaustive"] = True
     report.coverage["rule"] = ("every Stat sequence over the eight 3-bit values of length <= %d x timeouts 0..%d (exhaustive; quick tier thins length 3 to "
                                "one in three), plus random longer sequences with timeout = halting cycle +-1, plus halting sequences under budgets 2^15-1 .. 2^32-1; run through RunningProgram::run with "
-                               "option sets -, -q, -t, -d; distinct = distinct (sequence, timeout)" % (maxlen, tmax))
-    report.coverage["distribution"] = dict(stats, **{"spec_" + k: v for k, v in kinds.items()})
+                               "option sets -, -q, -t, -d; distinct = distinct (sequence, timeout); plus the real binary with -i / --interactive and 0, 1, half as many and more lines on standard input than cycles: same exit status and, prompts removed, same standard output as without the prompt" % (maxlen, tmax))
+    report.coverage["distribution"] = dict(stats, interactive_runs=n_inter, **{"spec_" + k: v for k, v in kinds.items()})
     report.coverage["samples"] = [{"seq": meta["t5"][0], "timeout": meta["t5"][1], "hcl": cases["t5"]["hcl"]}]
